@@ -24,17 +24,19 @@ OwnersVerified ==      \* every unicast pipe is the registered owner of its addr
   \A i \in 1..N : \A p \in 1..5 : LET a == T.phys[i][p + 1] IN T.ownN[a] = i /\ T.ownP[a] = p
 PipesShareBase == \A i \in 1..N : \A p \in 2..5 : \A b \in 2..5 : T.A[T.phys[i][p + 1]][b] = T.A[T.phys[i][2]][b]
 AllOpen        == \A i \in 1..N : T.en[i] = 63
-FirstAtLevel(l) == CHOOSE i \in 1..N : Level(T.addrs[i]) = l /\ \A j \in 1..N : Level(T.addrs[j]) = l => i <= j
+\* lvl[i] = the node's configured multicast level (by default the level of its address)
+HasLevel(l) == \E i \in 1..N : T.lvl[i] = l
+FirstAtLevel(l) == CHOOSE i \in 1..N : T.lvl[i] = l /\ \A j \in 1..N : T.lvl[j] = l => i <= j
 LvlA(l) == T.phys[FirstAtLevel(l)][1]
 LevelShared == IF T.mcast
-  THEN /\ \A i \in 1..N : T.phys[i][1] = LvlA(Level(T.addrs[i]))            \* same level  => same pipe-0 address
-       /\ \A l1, l2 \in 0..4 : l1 # l2 => LvlA(l1) # LvlA(l2)               \* other level => other address
-       /\ \A l \in 0..4 : T.ownN[LvlA(l)] = 0                               \* and it is nobody's unicast pipe
+  THEN /\ \A i \in 1..N : T.phys[i][1] = LvlA(T.lvl[i])                       \* same level  => same pipe-0 address
+       /\ \A l1, l2 \in 0..4 : (l1 # l2 /\ HasLevel(l1) /\ HasLevel(l2)) => LvlA(l1) # LvlA(l2)   \* other level => other address
+       /\ \A l \in 0..4 : HasLevel(l) => T.ownN[LvlA(l)] = 0                 \* and it is nobody's unicast pipe
   ELSE \A i \in 1..N : T.ownN[T.phys[i][1]] = i /\ T.ownP[T.phys[i][1]] = 0  \* opted out: pipe 0 is a private address
 McSrc == {T.mcsrc[k] : k \in 1..Len(T.mcsrc)}
 McastToLevel == T.mcast => \A i \in McSrc : \A l \in 0..4 :
-                    (Level(T.addrs[i]) = l /\ l = 0) \/ T.mc[i][l + 1] = LvlA(l)   \* (the master alone on level 0 has no peer)
-SpecAgrees == \A i \in 1..N : \A p \in 0..5 :
+                    (T.addrs[i] = 0 /\ l = 0) \/ ~HasLevel(l) \/ T.mc[i][l + 1] = LvlA(l)   \* (a multicast of the master to level 0 loops back)
+SpecAgrees == \A i \in 1..N : \A p \in 1..5 :
                  T.A[T.phys[i][p + 1]] = PhysAddr(T.addrs[i], p, T.prefix, T.suffix, T.mcast)
 
 \* ---- the walk over the implementation's own next-hop choices
